@@ -75,7 +75,7 @@ def bracket_rules(chk, P, prefix):
     def is_guard_with(b, c):
         return (c.callee.get("path") or "").startswith("emit::frame::EnterGuard") and c.callee.get("name") == "with"
 
-    chk.ob("%s.R3:Frame::call", "the enter guard is held across the closure and dropped on return and on unwind",
+    chk.ob("%s.R3:Frame::call" % prefix, "the enter guard is held across the closure and dropped on return and on unwind",
            bracket(FRAME + "call", is_call_once, "Frame::call"))
     chk.ob("%s.R3:FrameFuture::poll" % prefix, "every poll enters the frame, holds the guard across the inner poll and drops it on return and on unwind",
            bracket("<emit::frame::FrameFuture<C, F> as core::future::future::Future>::poll", is_poll, "FrameFuture::poll"))
